@@ -422,7 +422,7 @@ impl World for WorldS {
             };
             ops.push(op);
             if rng.chance(1, 12) {
-                ops.push(SOp::Advance { dseq: *rng.pick(&[1u32, 17, 100, 20_000]) });
+                ops.push(SOp::Advance { dseq: *rng.pick(&[1u32, 17, 100, 20_000, 1_100_000]) });
             }
         }
         (cfg, ops)
